@@ -43,7 +43,7 @@ ASSUMPTIONS = [
 ]
 BUDGET = {
     "quick": dict(cases=900, shards=4, timeout=600),
-    "thorough": dict(cases=20000, shards=16, timeout=3000),
+    "thorough": dict(cases=15000, shards=16, timeout=3000),
 }
 _HOSTILE = ["pad_gt_T", "wholly_right", "wholly_right_reflect", "wholly_left", "negative_start", "end_beyond",
             "empty_slice", "inverted_slice", "len0_row", "all_rows_empty", "extra_dims", "module_form", "noncontig",
@@ -64,13 +64,13 @@ FLOORS = {
         "distinct": 3000,
     },
     "thorough": {
-        "events": {"pad_variable": 60000, "chunk_by_slices": 100000, "pad_masked_sequence": 15000,
-                   "random_shift": 30000, "hook:rand_like": 10000, "hook:pad_variable_from_shift": 15000},
-        "classes": dict({c: 4000 for c in G.CLASSES}, **{c: 1000 for c in _HOSTILE},
+        "events": {"pad_variable": 50000, "chunk_by_slices": 80000, "pad_masked_sequence": 15000,
+                   "random_shift": 25000, "hook:rand_like": 10000, "hook:pad_variable_from_shift": 15000},
+        "classes": dict({c: 3000 for c in G.CLASSES}, **{c: 1000 for c in _HOSTILE},
                         exhaustive_solo=25104, exhaustive_batch=17757),  # = the whole enumeration
         "stats": {"ood:NotImplementedError": 5000, "ood:RuntimeError": 2000},
         "sets": {"pad_state": 8000, "chunk_state": 15000},
-        "distinct": 150000,
+        "distinct": 100000,
     },
 }
 EXHAUSTIVE = {"quick": False, "thorough": False}
@@ -303,15 +303,20 @@ def _judge_rs(mon, case, out, spied=None):
         mon.check(bool(fits), "shift-embed", n=n, observed=got, row=rows[n], length=L, out_len=ol[n], mode=mode,
                   prop=case["prop"], admissible_pads=cands, rand=case.get("rand"))
         mon.stat("rows_judged")
-        a, b = fits[0]  # unique: the row's values are distinct (an empty row admits only (0, 0))
+        # which admissible pads explain the output: unique unless the row cannot tell (one-element replicate rows,
+        # a row value equal to the constant); then what the layer handed to pad_variable, if it is among them
+        a, b = fits[0]
+        if spied is not None:
+            sp = (int(spied[0][n]), int(spied[1][n]))
+            if sp in fits:
+                a, b = sp
+            else:
+                mon.stat("spied_pads_not_among_explanations")  # pure observability; never a verdict
         if (a >= 1 and a == int(capl)) or (b >= 1 and b == int(capr)):
             mon.cls("shift_hits_cap")
         if a or b:
             mon.stat("shift_rows_really_padded")
         mon.observe("shift_state", "%s/%d/%d/%d" % (mode, L, a, b))
-        if spied is not None and (int(spied[0][n]), int(spied[1][n])) != (a, b) and L:
-            # pure observability (what the layer handed to pad_variable); never a verdict
-            mon.stat("spied_pads_differ_from_output")
     if case.get("rand"):
         flat = case["rand"][0] + case["rand"][1]
         if G.ONE_MINUS in flat:
